@@ -198,6 +198,8 @@ class AbsFile(io.IOBase):
                 if c == 0:
                     need = 0
                     break
+                if getattr(self, "short_reads", False):
+                    break  # a RAW stream (a decompressor at a member boundary, a pipe): read(n) hands out what it has, fewer than n bytes although more follow
                 continue
             # need < L : the read ends inside this segment
             if isinstance(v, (bytes, bytearray)) and isinstance(need, int):
@@ -302,7 +304,7 @@ class AbsFile(io.IOBase):
         raise Unsupported("readinto() on an abstract file")
 
     def __getattr__(self, name):
-        if name.startswith("_") or name in ("name", "preset", "csv_rows", "avro", "outer", "errors", "newline", "codec_truncated"):
+        if name.startswith("_") or name in ("name", "preset", "csv_rows", "avro", "outer", "errors", "newline", "codec_truncated", "short_reads"):
             raise AttributeError(name)
         raise Unsupported(f"file method {name!r} is outside the file model")
 
